@@ -53,8 +53,8 @@ CLAIMED = {
         ref="DESIGN.md section 4 C15"),
     "C09": dict(
         technique='Coq proof over an executable model of the card section tree + model/implementation correspondence on random operation sequences',
-        text='Theorems in coq/props/C09.v (31, no axioms): split_subsection_names equals the token-level specification for every key (D13 repaired); add: get/position/frame/ancestors; select after ANY sequence of the 11 operation kinds returns what the last relevant add put there (via history/val, induction over the op list); delete removes the subtree, keeps frame and order, list form verbatim; select/delete fail exactly on a missing or empty-last name with KeyError and unchanged state; chained select = path select under the non-empty-names guard (refuted without it: finding C09-F1). Correspondence-only: that the model is the code -- compared after every operation (outcome class, TOC, render, every node, select of every path).',
-        note='Trusted: Coq kernel/vm_compute; harness/impl_card.py, cardgen.py, the canonical observation in coq/card/Show.v; str() of values. Open finding C09-F1 (empty middle names).',
+        text='Theorems in coq/props/C09.v (35, no axioms): split_subsection_names equals the token-level specification for every key (D13 repaired); add: get/position/frame/ancestors; select after ANY sequence of the 11 operation kinds returns what the last relevant add put there (via history/val, induction over the op list); delete removes the subtree, keeps frame and order, list form verbatim; select/delete (string and list form) fail exactly on an empty key, an empty name anywhere in the path or a missing path, with KeyError and unchanged state; chained select = path select for every card and all names (C09-F1 repaired; only guard: p does not end in a backslash, which would escape the joining slash). Correspondence-only: that the model is the code -- compared after every operation (outcome class, TOC, render, every node, select of every path).',
+        note='Trusted: Coq kernel/vm_compute; harness/impl_card.py, cardgen.py, the canonical observation in coq/card/Show.v; str() of values.',
         ref='DESIGN.md section 4 C09'),
     "C10": dict(
         technique='Coq proof over an executable model of the card section tree + model/implementation correspondence on random operation sequences',
